@@ -473,6 +473,19 @@ def f_multi_index(p):
     return a
 
 
+def f_limitsize(p):
+    """a recursive relation with a size limit that grows by exactly one tuple per iteration (C20 known finding: the profile also
+    counts the tuple of the last, discarded @new relation)"""
+    n = p.fresh("lz")
+    k = p.r.randrange(3, 12)
+    p.decl(n, [("x", "number")])
+    p.rule(".limitsize %s(n=%d)" % (n, k))
+    p.rule("%s(0)." % n)
+    p.rule("%s(x+1) :- %s(x), x < 60." % (n, n))
+    p.meta.setdefault("limitsize_chain", []).append(n)
+    return n
+
+
 def f_io_relation(p):
     """a relation that is both .input and .output (no rules of its own) and feeds a derived relation"""
     r = p.r
@@ -543,7 +556,8 @@ def gen_c20(seed, size="quick"):
     """C03's fragment without eqrel storage (the statement excludes it); every IDB relation is an output; half of the programs
     also contain relations that are both loaded from facts and defined by rules."""
     r = random.Random(seed ^ 0x20)
-    return gen_c03(seed, size, exclude=(f_eqrel, f_eqrel_input, f_input_derived), always=((f_input_derived,) if r.random() < 0.5 else ()))
+    always = ((f_input_derived,) if r.random() < 0.5 else ()) + ((f_limitsize,) if r.random() < 0.3 else ())
+    return gen_c03(seed, size, exclude=(f_eqrel, f_eqrel_input, f_input_derived), always=always)
 
 
 def gen_c03c(seed, size="quick"):
